@@ -1,6 +1,7 @@
 import MypyVerif.Proofs.LayoutList
 import MypyVerif.Proofs.LayoutFS
 import MypyVerif.Proofs.LayoutDir
+import MypyVerif.Proofs.LayoutPkg
 /-!
 # C18 — files and module names map to each other consistently
 
@@ -378,6 +379,71 @@ example : dirCellOK fsGood oGood 8 (pth ["w", "r", "p"]) (String.toList "m.py") 
                 S.any (fun s => s.path = pth ["w", "r", "p", "m.pyi"] && s.module = pth ["p", "m"])
      | .error _ => false) = true :=
   ⟨by decide, ⟨by decide, by decide, by decide, by decide, by decide⟩, by decide⟩
+
+/-! ## naming the package with `-p` -/
+
+/-- for a namespace near miss the crawl only reaches the search root when the top-level directory of the module is a
+    regular package or the root is an explicit base (asked of every root that has the module's directory at all) -/
+def topOK (fs : FS) (o : Opts) (roots : List Path) (m : List Name) : Bool :=
+  roots.all fun R => o.isBase R || m.length ≤ 1 || !fs.isDir (R ++ m.dropLast) || hasInit fs (R ++ [m.headD []])
+
+/-- **`mypy -p PKG` names files as `mypy FILES…` does (provable part).**  Every *file* that
+    `find_modules_recursive(PKG)` turns into a build source with an importable module name `m` is given the same
+    name `m` by `crawl_up` (so the three invocation styles agree on module ↦ file for it) — when the configured
+    roots are genuine bases, no explicit base lies inside a root along `m`, and the top-level package is a regular
+    package or the root an explicit base (`topOK`; without it `-p` names files from the working directory while the
+    crawl names them from a deeper directory: by design). -/
+theorem pkg_names_agree_partial (fs : FS) (wf : fs.WF) (o : Opts) (fuel : Nat) (pkg : List Name) (p : Path) (m : List Name)
+    (hmem : (p, m) ∈ findModulesRecursive fs o.ns (packageRoots o) fuel pkg)
+    (hfile : fs.isFile p = true) (himp : importable m = true)
+    (hroots : goodRoots fs o = true) (hinner : noInnerBase o (packageRoots o) m = true)
+    (htop : topOK fs o (packageRoots o) m = true) :
+    ∃ R ∈ packageRoots o, crawlUp fs o p = .some m R := by
+  have hfind := findModulesRecursive_mem fs fuel pkg (p, m) hmem
+  simp only at hfind
+  have hne : m ≠ [] := by intro he; subst he; simp [importable] at himp
+  obtain ⟨dc, x, rfl⟩ := snoc_of_ne_nil hne
+  obtain ⟨hdc, hx, hxi⟩ := importable_snoc himp
+  have hsc : searchComps (dc ++ [x]) = dc ++ [x] := by
+    apply searchComps_ident
+    intro c hc
+    rw [List.mem_append] at hc
+    rcases hc with hc | hc
+    · exact hdc c hc
+    · simp only [List.mem_singleton] at hc; subst hc; exact hx
+  rw [hsc] at hfind
+  have hgood : ∀ R ∈ packageRoots o, crawlUpDir fs o R = .some [] R := by
+    intro R hR
+    simp only [goodRoots, List.all_eq_true, goodRoot, beq_iff_eq] at hroots
+    exact hroots R hR
+  apply find_then_crawl fs o wf hdc hx hxi hgood (noInnerBase_snoc hinner) ?_ hfind hfile
+  intro R hR hdir c1 hc1
+  simp only [topOK, List.all_eq_true, Bool.or_eq_true, decide_eq_true_eq, Bool.not_eq_true'] at htop
+  rcases htop R hR with ((h | h) | h) | h
+  · exact Or.inl h
+  · cases dc with
+    | nil => simp at hc1
+    | cons a as => simp at h
+  · rw [List.dropLast_concat, hdir] at h; cases h
+  · right
+    cases dc with
+    | nil => simp at hc1
+    | cons a as =>
+      simp only [List.head?_cons, Option.some.injEq] at hc1
+      subst hc1
+      simpa using h
+
+/-- F10 seen from `-p`: `find_modules_recursive("b")` makes the *directory* `b/a` the source of module `b.a` and never
+    lists `b/a.pyi` -/
+theorem not_pkg_lists_module_file :
+    (findModulesRecursive fsF10 true (packageRoots oF10) 8 (pth ["b"])).map (·.1) =
+      [pth ["w", "b"], pth ["w", "b", "a"], pth ["w", "b", "a", "c.py"]] := by decide
+
+/-- non-vacuity of `pkg_names_agree_partial` on the ordinary tree (`-p p` from `w/r`) -/
+example : (findModulesRecursive fsGood oGood.ns (packageRoots oGood) 8 (pth ["p"])).all (fun e =>
+    fsGood.isFile e.1 && importable e.2 && noInnerBase oGood (packageRoots oGood) e.2 &&
+      topOK fsGood oGood (packageRoots oGood) e.2 || fsGood.isDir e.1) = true ∧
+    (findModulesRecursive fsGood oGood.ns (packageRoots oGood) 8 (pth ["p"])).length = 4 := by decide
 
 /-! ## non-vacuity: the hypotheses of `roundtrip_or_duplicate_partial` are satisfiable and its second alternative
     is the one that holds on an ordinary package tree (regular package, namespace sub-directory, stub beside a
